@@ -1,0 +1,12 @@
+//go:build verif
+
+// Contracts for contract-based verification (/verif). Comment-only: with or without the
+// build tag "verif" this file adds nothing to the compiled package.
+
+package model
+
+// C04: the tracing object of an INVOKE event carries the caller's trace header value, or is absent when there is none
+//@ func NewXRayTracing
+//@   modifies nothing
+//@   ensures [absent-when-empty] len(value) == 0 ==> r0 == nil
+//@   ensures [carries-the-value] len(value) != 0 ==> r0 != nil && fresh(r0) && r0.Type == XRayTracingType && r0.XRayTracing.Value == value
